@@ -1191,11 +1191,18 @@ int main(int argc, char** argv) {
     std::vector<Group> groups = part_groups();
     std::map<std::string, std::string> last;  // family -> characteristic its object / static state currently holds
     long ncases = 0;
+    // part 1 is sharded by group (setting a large characteristic costs O(p^2)); the other parts by case, which balances
+    // the heavy all-pairs sections (setting a prime range is cheap, every shard walks every group)
+    const bool shard_by_case = C10_PART != 1;
+    long k = 0;
     for (size_t gi = 0; gi < groups.size(); ++gi) {
-      if ((int)(gi % (size_t)a.nshards) != a.shard) continue;
+      if (!shard_by_case && (int)(gi % (size_t)a.nshards) != a.shard) continue;
       const Group& g = groups[gi];
       std::string prev = last.count(g.fam) ? last[g.fam] : "-";
+      bool any = false;
       for (const Case& c : group_cases(g, prev)) {
+        if (shard_by_case && (int)(k++ % a.nshards) != a.shard) continue;
+        any = true;
         std::string e = c.enc();
         vf::set_case(e);
         exec_case(c);
@@ -1204,7 +1211,8 @@ int main(int argc, char** argv) {
         vf::stats().add("sec." + c.sec, 1);
         if (ncases % 97 == 1) vf::stats().sample(e);
       }
-      last[g.fam] = g.ch == "refuse" ? "3" : g.ch;
+      if (!any) continue;
+      last[g.fam] = g.ch == "refuse" ? (C10_PART <= 2 ? "3" : "3-3") : g.ch;
       vf::stats().add("groups." + g.fam, 1);
     }
     vf::stats().add("cases", ncases);
